@@ -150,6 +150,147 @@ def entries(data, tmpdir, chunk):
         pass
 
 
+# ------------------------------------------------------------------ variants: names, path kinds, keyword arguments
+
+FILE_NAMES = ["f.lbl", "mars orbiter 0042.img", "a#b%20c.lbl", "caf\u00e9 \u4e2d.lbl", "frame[2].lbl", "q?x=1&y.lbl",
+              "dir with space/sub#dir/f.lbl"]
+VARIANT_LABEL = ("SCALE = 0.10\nn = 7\nGROUP = g\n  r = (1.50, 2 <m>)\n  OBJECT = o\n    x = 1.0E3\n  END_OBJECT\n"
+                 "END_GROUP\ns = {0.5}\nEND\n")
+
+
+class FsPath:
+    """an os.PathLike that is not a pathlib class"""
+    def __init__(self, p):
+        self.p = p
+
+    def __fspath__(self):
+        return self.p
+
+
+def kwarg_sets():
+    from decimal import Decimal
+
+    class M(impl.PVLModule):
+        pass
+
+    class G(impl.PVLGroup):
+        pass
+
+    class O(impl.PVLObject):
+        pass
+    return [
+        ("none", lambda: {}),
+        ("decimal-decoder", lambda: {"decoder": impl.OmniDecoder(real_cls=Decimal)}),
+        ("container-classes", lambda: {"module_class": M, "group_class": G, "object_class": O}),
+        ("pvl-grammar-and-decoder", lambda: {"grammar": impl.PVLGrammar(), "decoder": impl.PVLDecoder(real_cls=Decimal)}),
+        ("explicit-parser", lambda: {"parser": impl.PVLParser(module_class=M, group_class=G, object_class=O,
+                                                             decoder=impl.PVLDecoder(real_cls=Decimal))}),
+    ]
+
+
+def typed(v):
+    """canonical form that keeps the class of every node"""
+    if isinstance(v, impl.OrderedMultiDict):
+        return (type(v).__name__, tuple((k, typed(x)) for k, x in v))
+    if isinstance(v, impl.Quantity):
+        return ("Quantity", typed(v.value), v.units)
+    if isinstance(v, list):
+        return ("list", tuple(typed(x) for x in v))
+    if isinstance(v, (set, frozenset)):
+        return (type(v).__name__, tuple(sorted(repr(typed(x)) for x in v)))
+    return (type(v).__name__, str(v))
+
+
+def path_entries(p, data):
+    """every way of naming a file (and, for reference, the text itself)"""
+    import pvl
+    yield "str", lambda **kw: pvl.loads(data.decode("utf-8"), **kw)
+    yield "bytes", lambda **kw: pvl.loads(data, **kw)
+    yield "str-path", lambda **kw: pvl.load(p, **kw)
+    yield "Path", lambda **kw: pvl.load(pathlib.Path(p), **kw)
+    yield "PurePath-as-fspath-object", lambda **kw: pvl.load(FsPath(p), **kw)
+
+    def direntry(**kw):
+        with os.scandir(os.path.dirname(p)) as it:
+            for e in it:
+                if e.name == os.path.basename(p):
+                    return pvl.load(e, **kw)
+        raise AssertionError("file not found by scandir")
+    yield "os.DirEntry", direntry
+    yield "file-url(as_uri)", lambda **kw: pvl.loadu(pathlib.Path(p).as_uri(), **kw)
+    yield "file-url(localhost)", lambda **kw: pvl.loadu(pathlib.Path(p).as_uri().replace("file:///", "file://localhost/"), **kw)
+
+    def bin_stream(**kw):
+        with open(p, "rb") as f:
+            return pvl.load(f, **kw)
+    yield "binary-stream", bin_stream
+
+    def text_stream(**kw):
+        with open(p, "r", encoding="utf-8", newline="") as f:
+            return pvl.load(f, **kw)
+    yield "text-stream", text_stream
+    yield "BytesIO", lambda **kw: pvl.load(io.BytesIO(data), **kw)
+    yield "StringIO", lambda **kw: pvl.load(io.StringIO(data.decode("utf-8")), **kw)
+
+
+def check_variant(fname, kwname, tailname, acc, tmpdir):
+    data = VARIANT_LABEL.encode("utf-8") + {"none": b"", "binary": b"\xff\xfe\x00\x01junk" * 20}[tailname]
+    p = os.path.join(tmpdir, fname)
+    os.makedirs(os.path.dirname(p), exist_ok=True)
+    with open(p, "wb") as f:
+        f.write(data)
+    mk = dict(kwarg_sets())[kwname]
+    ref = None
+    for name, thunk in path_entries(p, data):
+        if name in ("str", "StringIO", "text-stream") and tailname != "none":
+            continue                       # a str cannot hold the binary tail
+        case = {"kind": "variant", "file_name": fname, "kwargs": kwname, "tail": tailname, "entry": name}
+        acc.n += 1
+        try:
+            got = typed(thunk(**mk()))
+        except Exception as e:  # noqa: BLE001
+            acc.outcomes["violation"] += 1
+            acc.violation(case, "entry-point-raises:" + name, "%s: %s" % (type(e).__name__, str(e)[:150]),
+                          sig="variant-raises|%s|%s|%s" % (name, kwname, type(e).__name__))
+            continue
+        if ref is None:
+            ref = (name, got)              # the first entry that works; all others must agree with it
+            acc.nontrivial += 1
+            continue
+        if got != ref[1]:
+            acc.outcomes["violation"] += 1
+            acc.violation(case, "entry-points-disagree:" + name,
+                          "with keyword arguments %s: %s gives %r, %s gives %r" % (kwname, ref[0], ref[1], name, got),
+                          sig="variant-differs|%s|%s" % (name, kwname))
+            continue
+        acc.nontrivial += 1
+        acc.outcomes["variant-ok:" + name] += 1
+    # absolute expectation next to the differential one: what the keyword arguments ask for
+    if ref is not None:
+        flat = repr(ref[1])
+        want = {"none": ["'float'", "PVLGroup"], "decimal-decoder": ["'Decimal', '0.10'", "'Decimal', '1.50'"],
+                "container-classes": ["('M'", "('G'", "('O'"], "pvl-grammar-and-decoder": ["'Decimal', '1.0E+3'", "'Decimal', '0.10'"],
+                "explicit-parser": ["('M'", "('G'", "'Decimal', '0.10'"]}[kwname]
+        for w in want:
+            if w not in flat:
+                acc.violation({"kind": "variant", "file_name": fname, "kwargs": kwname, "tail": tailname, "entry": ref[0]},
+                              "keyword-arguments-not-applied:" + ref[0], "expected %s in %s" % (w, flat[:300]),
+                              sig="variant-kwargs|%s|%s" % (ref[0], kwname))
+
+
+def shard_variants(spec):
+    fname, kwname = spec
+    acc = Acc()
+    tmpdir = tempfile.mkdtemp(prefix="c09v_")
+    try:
+        for tailname in ("none", "binary"):
+            check_variant(fname, kwname, tailname, acc, tmpdir)
+    finally:
+        shutil.rmtree(tmpdir, ignore_errors=True)
+    acc.sample({"file_name": fname, "kwargs": kwname}, cap=1)
+    return acc
+
+
 def check_load(label, sep, tailname, tail, chunk, tmpdir, acc):
     import pvl
     items = dict(_labels())[label]
@@ -309,6 +450,7 @@ def run(ctx):
     seps = SEPS if not q else SEPS[:5]
     specs = [(li, sep, q) for li in range(len(LABELS)) for sep in seps]
     ctx.pmap(shard_load, specs, into=acc)
+    ctx.pmap(shard_variants, [(fn, kn) for fn in FILE_NAMES for kn, _ in kwarg_sets()], into=acc)
     ctx.pmap(shard_dump, [(mi, e) for mi in range(len(dump_modules())) for e in ["default"] + list(impl.ENCODERS)],
              into=acc)
     cov = {
@@ -317,10 +459,10 @@ def run(ctx):
                 "every k around each chunk boundary of 7/64/8192 (thorough: every k < 140 and +/-5 around 7/16/64/4096/8192), NULs, valid UTF-8, truncated multi-byte, second "
                 "label, garbage, open quote/comment, long ASCII run) x entry points (str path, Path, file: URL, text "
                 "stream, binary stream, BytesIO, short-read raw stream in binary and text mode, bytes, str, StringIO) "
-                "x chunk sizes %r (stream entries only); dump: %d modules x 5 encoders x 6 targets; non-trivial = "
+                "x chunk sizes %r (stream entries only); variants: %d file names (blanks, '#', '%%', '?', '[', non-ASCII, sub-directories) x %d keyword-argument sets (decoder with a Decimal real class, container classes, grammar+decoder, explicit parser) x 12 ways of naming the data (str, bytes, str path, Path, a non-pathlib os.PathLike, os.DirEntry, file: URL with and without host, streams) x {no tail, binary tail}, every result compared type-strictly; dump: %d modules x 5 encoders x 6 targets; non-trivial = "
                 "module equal to the label's module and the last token requested was END / written bytes equal "
                 "dumps() and the length reported" % (len(LABELS), len(seps), CHUNKS if q else CHUNKS_THOROUGH,
-                                                    len(dump_modules())),
+                                                    len(FILE_NAMES), len(kwarg_sets()), len(dump_modules())),
         "outcome_histogram": dict(acc.outcomes),
         "samples": acc.samples[:6], "exhaustive": True,
     }
@@ -333,6 +475,9 @@ def run(ctx):
 
 def replay(case):
     acc = Acc()
+    if case["kind"] == "variant":
+        a = shard_variants((case["file_name"], case["kwargs"]))
+        return [v for v in a.violations if v["case"]["entry"] == case["entry"] and v["case"]["tail"] == case["tail"]]
     if case["kind"] == "dump":
         a = shard_dump((case["module"], case["encoder"]))
         return [v for v in a.violations if v["case"]["target"] == case["target"]]
